@@ -21,7 +21,10 @@ def classify(root):
     def walk(o):
         for n in o.attribute_names:
             v = getattr(o, n)
-            if isinstance(v, str) and n in _lay.FREE_TEXT and (
+            if isinstance(v, str) and n in _lay.FREE_TEXT and v != "" and v.strip() == "":
+                # whitespace only: printed as it is when it fits on the line, not printed at all when it has to be wrapped
+                found.add("D49")
+            elif isinstance(v, str) and n in _lay.FREE_TEXT and (
                     v != v.strip(" ") or "  " in v or any(c in v for c in "\t\n\r\x0b\x0c")):
                 found.add("D28")
         if o.is_definition:
@@ -72,6 +75,18 @@ def docs(ctx):
         else:
             text = gen.soup(rng)
         yield text
+    # string attributes made of blanks only (own generator state: the stream above stays what it was); short ones survive the
+    # round trip, those too long for the line are finding class D49
+    import random
+    r2 = random.Random(ctx.seed * 1000003 + 49)
+    for i in range(ctx.scale(40, 1000, 200)):
+        nblanks = r2.choice([1, 2, 3, 8, 20, 35, 50, 60, 70, 80, 100, 130, 210])
+        attr = r2.choice(["help", "help", "caption", "short_caption", "style"])
+        q = r2.choice(['"', "'"])
+        if r2.random() < 0.3:
+            yield "s\n  .%s = %s%s%s\n{\n  a = 1\n}\n" % (attr, q, " " * nblanks, q)
+        else:
+            yield "a = x y\n  .%s = %s%s%s\nb = 2\n" % (attr, q, " " * nblanks, q)
 
 
 def run(ctx):
